@@ -102,15 +102,23 @@ class Run:
         self.harness_errors.append(text)
 
     # ---- violations --------------------------------------------------------------------
-    def violation(self, key, what, replay=None):
+    def violation(self, key, what, replay=None, signature=None):
         """A *replayed* violation.  key identifies the failing input / call site; if KNOWN_FINDINGS lists
-        (property, key) it is printed as KNOWN-FINDING, otherwise as VIOLATION."""
+        (property, key) it is printed as KNOWN-FINDING, otherwise as VIOLATION.  A recorded finding may carry a
+        'signature' (which entries fail and by how much at a fixed exact point): a violation under the same key with
+        another signature is a different violation and is reported."""
         for k in self.known:
             if k.get('key') == key:
+                if k.get('signature') and signature is not None and signature not in k['signature']:
+                    key = key + '/differs-from-recorded-finding'
+                    what = what + ' [recorded %s]' % (k['signature'],)
+                    break
                 if key not in [h['key'] for h in self.known_hits]:
                     self.known_hits.append({'key': key, 'what': what})
                     print('KNOWN-FINDING: property=%s %s [%s]' % (self.pid, k.get('what', what), key), flush=True)
                 return False
+        if signature is not None:
+            what = what + ' [signature %s]' % signature
         d = os.path.join(VERIF, 'replays', self.pid)
         os.makedirs(d, exist_ok=True)
         h = hashlib.sha256((key + json.dumps(replay, sort_keys=True, default=str)).encode()).hexdigest()[:12]
